@@ -1,11 +1,20 @@
 """C02 - dependency resolution is order-independent; bad graphs are rejected.
 
-Deductive part (contracts/model_sort.py): _check_if_is_sortable proved for all graphs
-(raises iff incomplete, lists exactly the missing names, modifies nothing).  Bounded part
-(bounded/C02.py): _sort_dependencies and the model level on all graphs with <= 3/4
-components x all declaration orders."""
+Deductive part (contracts/model_sort.py):
+  * _check_if_is_sortable: raises MissingDependenciesError exactly when some component
+    requires a name nobody provides, lists exactly the missing names, modifies nothing;
+  * _sort_dependencies (on top of that contract, queue modelled by pyvc/lib_queue.py):
+    when it returns, the order has one entry per component, no duplicates, only component
+    names, and is TOPOLOGICALLY VALID (everything a component requires is initially
+    available or provided by a component placed earlier); `available` is the initial
+    set plus everything provided; MissingDependenciesError is raised exactly when the
+    completeness check says so; both while-loops terminate (variants; the main loop
+    within len(elements)**2 + 1 rounds).
+NOT proved: that CircularDependencyError is raised ONLY for cyclic graphs (adequacy of
+the n**2 cap / last_name shortcut) and order independence of the VALUES - bounded part
+(bounded/C02.py): all graphs with <= 3/4 components x all declaration orders."""
 from props._runner import run
 
 if __name__ == "__main__":
-    run("C02", "proof", files=["model_sort.py"], targets=["mxlpy.model:_check_if_is_sortable"],
-        notes="C02: completeness check proved; sort order validity, cycle rejection, termination and cap adequacy covered by the bounded stand-in only")
+    run("C02", "proof", files=["model_sort.py"],
+        notes="C02: completeness check and sort (permutation, topological validity, available set, termination) proved; adequacy of the iteration cap (no false CircularDependencyError) and value-level order independence covered by the bounded stand-in only")
